@@ -25,7 +25,12 @@ TFinal == /\ Ev.ev = "Final" /\ m' = m
           /\ Len(Ev.pairs) = Ev.len
           /\ \A i \in 1..Len(Ev.pairs) : m[Ev.pairs[i][1]] = Ev.pairs[i][2] /\ Ev.pairs[i][2] # 0
           /\ \A i \in 1..Len(Ev.pairs) - 1 : Ev.pairs[i][1] < Ev.pairs[i + 1][1]
-TNext == l <= Len(Trace) /\ l' = l + 1 /\ (TReset \/ TSet \/ TSetNx \/ TSetX \/ TDelete \/ TGet \/ TFinal)
+\* snapshot scenario: one writer moves ALL keys of a map to the next version inside one Map(fn) call, again and again;
+\* whatever a reader obtains from one call of GetWithMap / Values / Range / All (hundreds of keys) is one state of the
+\* map, hence of a single version, and complete
+TSnap == /\ Ev.ev = "Snapshot" /\ m' = m
+         /\ Len(Ev.versions) = 1 /\ Ev.n = Ev.keys
+TNext == l <= Len(Trace) /\ l' = l + 1 /\ (TSnap \/ TReset \/ TSet \/ TSetNx \/ TSetX \/ TDelete \/ TGet \/ TFinal)
 TSpec == l = 1 /\ m = <<>> /\ [][TNext]_<<m, l>>
 Accepted == TLCGet("stats").diameter - 1 = Len(Trace)
 =============================================================================
